@@ -14,6 +14,10 @@ import copy
 from gen import schema as gs
 
 BREAKING = 2
+MUST_BREAK = {"TypeChangedKind", "TypeRemoved", "TypeRemovedFromUnion", "TypeRemovedFromInterface", "EnumValueRemoved",
+              "DirectiveRemoved", "DirectiveLocationRemoved", "DirectiveArgumentRemoved", "DirectiveArgumentChangedType",
+              "FieldArgumentRemoved", "FieldArgumentChangedType", "FieldChangedType", "FieldRemoved", "InputFieldRemoved",
+              "InputFieldChangedType", "RootTypeChanged", "RootTypeRemoved"}
 
 
 def accepts(t, v):
@@ -134,6 +138,31 @@ def e_arg_default(rng, d):
         new = {"Int": "54321", "String": '"changed2"', "Boolean": "false"}[gs.ty_base(a["type"])]
     a["default"] = new
     return n, {"FieldArgumentDefaultValueChange"}, {"FieldArgumentDefaultValueChange"}, a["name"]
+
+
+def e_required_by_default_removal(rng, d):
+    """the default value of a NON-NULL argument / input field / directive argument is removed: the element becomes
+    required, operations relying on the default become invalid -> BREAKING (reverse: a default is added: not breaking)"""
+    n = copy.deepcopy(d)
+    cands = []
+    for t in _objs(n):
+        for f in _own_fields(n, t):
+            for a in f["args"]:
+                if a["type"][0] == "nonNull" and a.get("default") is not None:
+                    cands.append(("FieldArgumentDefaultValueChange", a))
+    for t in _objs(n, ("input",)):
+        for f in t["fields"]:
+            if f["type"][0] == "nonNull" and f.get("default") is not None:
+                cands.append(("InputFieldDefaultValueChange", f))
+    for dd in n["directives"]:
+        for a in dd["args"]:
+            if a["type"][0] == "nonNull" and a.get("default") is not None:
+                cands.append(("DirectiveArgumentDefaultValueChange", a))
+    if not cands:
+        return None
+    cls, a = rng.choice(cands)
+    a["default"] = None
+    return n, {cls}, {cls}, a["name"], ("became-required", cls)
 
 
 def e_null_default(rng, d):
@@ -323,8 +352,33 @@ def e_implement_interface(rng, d):
 
 def e_add_directive(rng, d):
     n = copy.deepcopy(d)
-    n["directives"].append({"name": "addedDirective", "locations": ["FIELD"], "args": [], "desc": None})
+    # executable-only, type-system-only and MIXED location sets: removing any of them takes something away from clients
+    locs = rng.choice([["FIELD"], ["FIELD_DEFINITION"], ["FIELD", "FIELD_DEFINITION"], ["INLINE_FRAGMENT", "ENUM_VALUE"],
+                       ["QUERY", "FIELD", "OBJECT", "ARGUMENT_DEFINITION"]])
+    n["directives"].append({"name": "addedDirective", "locations": locs, "args": [], "desc": None})
     return n, {"DirectiveAdded"}, {"DirectiveRemoved"}, "addedDirective"
+
+
+def e_remove_interface(rng, d):
+    """COMBINED edit: an interface is deleted and every object that implemented it stops doing so (fields stay). Every
+    elementary part must be reported: the type removal AND each lost implementation."""
+    n = copy.deepcopy(d)
+    ifs = [i for i in _objs(n, ("interface",))
+           if any(i["name"] in o["interfaces"] for o in _objs(n))
+           and not any(gs.ty_base(f["type"]) == i["name"] for t in n["types"] for f in t.get("fields", []))
+           and not any(i["name"] in u.get("members", []) for u in _objs(n, ("union",)))]
+    if not ifs:
+        return None
+    i = rng.choice(ifs)
+    n["types"] = [t for t in n["types"] if t["name"] != i["name"]]
+    impls = []
+    for o in _objs(n):
+        if i["name"] in o["interfaces"]:
+            o["interfaces"] = [x for x in o["interfaces"] if x != i["name"]]
+            impls.append(o["name"])
+    return (n, {"TypeRemoved", "TypeRemovedFromInterface"}, {"TypeAdded", "TypeAddedToInterface"}, i["name"],
+            ("all-of", {"fwd": ["TypeRemoved"] + ["TypeRemovedFromInterface"] * len(impls),
+                        "rev": ["TypeAdded"] + ["TypeAddedToInterface"] * len(impls)}))
 
 
 def e_directive_location(rng, d):
@@ -404,7 +458,7 @@ def e_root_added(rng, d):
     return n, {"RootTypeAdded"}, {"RootTypeRemoved"}, target
 
 
-EDITS = [e_root_repoint, e_root_added, e_interface_arg_removed, e_interface_arg_default, e_add_type, e_add_field, e_retype_field, e_add_arg, e_retype_arg, e_arg_default, e_null_default, e_add_input_field,
+EDITS = [e_root_repoint, e_root_added, e_required_by_default_removal, e_remove_interface, e_interface_arg_removed, e_interface_arg_default, e_add_type, e_add_field, e_retype_field, e_add_arg, e_retype_arg, e_arg_default, e_null_default, e_add_input_field,
          e_retype_input_field, e_add_enum_value, e_enum_deprecation, e_field_deprecation, e_union_member,
          e_implement_interface, e_add_directive, e_directive_location, e_directive_arg, e_retype_directive_arg,
          e_change_kind]
@@ -472,6 +526,12 @@ def check_pair(ctx, rng, edit_name, old_d, new_d, expected, element, extra, dire
         if direction == "rev":
             ot, nt = nt, ot
         compat = in_compat(ot, nt) if pos == "in" else out_compat(ot, nt)
+        if not named and compat:
+            # the statement says EVERY elementary edit (retyping included) is reported with a change naming the element;
+            # the library documents that it ignores type changes it considers compatible (known finding G5)
+            fails.append(("safe-retype-not-reported:%sput" % pos,
+                          "%s position retyped %s -> %s (compatible) and no change names the element"
+                          % (pos, gs.ty_str(ot), gs.ty_str(nt))))
         if not named and not compat:
             fails.append(("unsafe-%sput-retype-not-breaking:%s" % (pos, divergence(ot, nt, pos)),
                           "%s position retyped %s -> %s, incompatible, but no breaking change names it"
@@ -480,6 +540,23 @@ def check_pair(ctx, rng, edit_name, old_d, new_d, expected, element, extra, dire
         fails.append(("edit-not-reported:%s:%s" % (edit_name, direction),
                       "edit %s (%s) of element %s not reported by a change of class %s; got %s"
                       % (edit_name, direction, element, sorted(real_expected), sorted(classes))))
+    if extra and extra[0] == "all-of":
+        want = extra[1][direction]
+        for cls in sorted(set(want)):
+            got_n = len([c for c in ch if c[0] == cls and element in c[2]])
+            if got_n < want.count(cls):
+                fails.append(("combined-edit-part-not-reported:%s:%s" % (edit_name, cls),
+                              "combined edit %s (%s): %d change(s) of class %s naming %s expected, %d reported"
+                              % (edit_name, direction, want.count(cls), cls, element, got_n)))
+    # classes that take something away from clients are BREAKING whatever their details (severity_table theorem)
+    for c in named:
+        if c[0] in MUST_BREAK and c[1] != BREAKING:
+            fails.append(("removal-not-breaking:%s" % c[0], "%s reported with severity %d: %s" % (c[0], c[1], c[2])))
+    if extra and extra[0] == "became-required" and named:
+        sev = named[0][1]
+        if direction == "fwd" and sev != BREAKING:
+            fails.append(("default-removal-makes-required-not-breaking:%s" % extra[1],
+                          "the default of a non-null %s was removed (it becomes required) but severity is %d" % (extra[1], sev)))
     if extra and extra[0] in ("added-arg", "added-input-field") and direction == "fwd" and named:
         req = extra[1]
         sev = named[0][1]
@@ -573,6 +650,34 @@ def operations_stay_valid(ctx, rng, edit_name, old_d, new_d):
                               "no BREAKING change reported for edit %s (%s) but an operation valid on the old schema is invalid on the new one: %s | %s"
                               % (edit_name, direction, op["text"][:200], str(errs[0])[:150])))
                 break
+    return fails
+
+
+def same_response_shape_case(ctx):
+    """An output field made non-null (`Int` -> `Int!`) is classified safe and reported by nothing, yet an operation that
+    gives two fields of mutually exclusive types the same response key is valid on the old schema and violates
+    SameResponseShape on the new one (known finding G4, pinned by test_no_incompatible_changes)."""
+    from py_gql import build_schema
+    from py_gql.lang import parse
+    from py_gql.validation import validate_ast
+    fails = []
+    base = "type A { f: %s } type B { g: Int } union U = A | B type Query { u: U }"
+    op = "{ u { ... on A { x: f } ... on B { x: g } } }"
+    for old_t, new_t in (("Int", "Int!"), ("[Int]", "[Int]!"), ("[Int]", "[Int!]")):
+        try:
+            o, n = build_schema(base % old_t), build_schema(base % new_t)
+            breaking = [c for c in diff_live_unsorted(o, n) if c[1] >= BREAKING]
+            ok_old = not validate_ast(o, parse(op)).errors
+            errs_new = validate_ast(n, parse(op)).errors
+        except Exception as e:  # noqa
+            fails.append(("same-response-shape-case-raises:%s" % type(e).__name__, repr(e)))
+            continue
+        ctx.count()
+        ctx.stat("same-response-shape-case")
+        if ok_old and not breaking and errs_new:
+            fails.append(("nobreaking-but-operation-invalid:same-response-shape:%s->%s" % (old_t, new_t),
+                          "A.f: %s -> %s: no BREAKING change reported, but `%s` (valid before) now fails: %s"
+                          % (old_t, new_t, op, str(errs_new[0])[:120])))
     return fails
 
 
@@ -672,6 +777,8 @@ def _run(ctx):
     base = ctx.rng.randrange(1 << 30)
     # every kind of elementary edit is exercised in every run: at least `want` applicable cases per edit
     want = ctx.n(4, 25)
+    for sig, what in same_response_shape_case(ctx):
+        ctx.fail(sig, what, {"same_response_shape_case": True, "what": what})
     for e in EDITS:
         got = 0
         for j in range(want * 12):
@@ -1007,6 +1114,8 @@ def replay(ctx, data):
         return not code_enum_case(ctx, inp["code_enum_seed"])
     if "history_seed" in inp:
         return not history_case(ctx, inp["history_seed"])
+    if inp.get("same_response_shape_case"):
+        return not same_response_shape_case(ctx)
     if "schema_case_seed" in inp:
         fails = one_case(ctx, inp["schema_case_seed"], want=inp.get("edit"))
         return not fails
